@@ -4,7 +4,7 @@
 cd /verif
 OUT=/verif/seeded/results.tsv
 [ $# -eq 0 ] && set -- $(ls seeded | grep -E '^C[0-9]+[a-z]$')
-declare -A EXTRA=( [C02e]="C09" [C16e]="C02 C03" [C17f]="C01 C19" [C12e]="C11" [C09e]="C02" [C08f]="C04" [C08e]="C15" [C19e]="C01" [C19f]="C15" [C20e]="C19" [C03b]="C01" [C19b]="C15" [C13b]="C14" [C18d]="C04" [C03d]="C01" [C03c]="C08" [C19c]="C01" [C08c]="C11" [C08d]="C07" )
+declare -A EXTRA=( [C03b]="C01" [C19b]="C15" [C13b]="C14" [C18d]="C04" [C03d]="C01" [C03c]="C08" [C19c]="C01" [C08c]="C11" [C08d]="C07" [C02e]="C09" [C16e]="C02" [C17f]="C01" [C12e]="C11" [C09e]="C02" [C08f]="C04" [C08e]="C15" [C19e]="C01" [C19f]="C15" [C20e]="C19" [C06e]="C05" [C06f]="C05" [C07f]="C01" [C07e]="C19" [C16f]="C04" [C18f]="C08" )
 for s in "$@"; do
   P=${s:0:3}
   for prop in $P ${EXTRA[$s]}; do
